@@ -23,6 +23,8 @@ def prove_equal(e1, e2, timeout_ms=10000, st=None):
     s = z3.SolverFor('QF_AUFBV')
     s.set('timeout', timeout_ms)
     s.add(g)
+    for c in st.defined:        # results the IR leaves undefined (bsf/bsr of 0, division by 0) are not constrained
+        s.add(c)
     r = s.check()
     if r == z3.unsat:
         return 'equal', 'z3', st
